@@ -18,6 +18,7 @@ import sys
 import time
 
 ENV = dict(os.environ, GOFLAGS="-mod=mod", GOPROXY="off", GOSUMDB="off", GOTOOLCHAIN="local")
+HOME = os.path.dirname(os.path.dirname(os.path.abspath(__file__)))  # the /verif tree this script belongs to (may be a snapshot)
 ALL = ["C%02d" % i for i in range(1, 21)]
 
 
@@ -70,7 +71,7 @@ def main():
 
         def run(p, tier):
             t0 = time.time()
-            rc, out = sh(["/verif/check", p, tier], cwd="/verif", env=envc, timeout=7200)
+            rc, out = sh([os.path.join(HOME, "check"), p, tier], cwd=HOME, env=envc, timeout=7200)
             detail = [l for l in out.splitlines() if l.strip()][:14]
             res["checks"]["%s/%s" % (p, tier)] = {"exit": rc, "wall_s": round(time.time() - t0, 1), "head": detail if rc != 0 else detail[-1:]}
             return rc
@@ -91,7 +92,7 @@ def main():
             # the alt build dir of this worktree
             import hashlib
             h = hashlib.sha1(wt.encode()).hexdigest()[:8]
-            shutil.rmtree("/verif/.build/alt/" + h, ignore_errors=True)
+            shutil.rmtree(os.path.join(HOME, ".build", "alt", h), ignore_errors=True)
         with open(os.path.join(seed, "eval.json"), "w") as f:
             json.dump(res, f, indent=1)
         print(json.dumps({k: v for k, v in res.items() if k not in ("demo_output",)}, indent=1)[:6000])
